@@ -577,3 +577,26 @@ def r19(rr, repo):
     from .c09 import r8 as c09r8
     c02r12(rr, repo)
     c09r8(rr, repo)
+
+
+@rule('C03.R20', "a consumer receives a source's frames under the names its subscription says: 'a' keeps its name, 'a>b' renames a to b, and a side left out ('>b', 'a>', '>', '') stands for the default "
+                 "topic 'main' - decided by evaluating parse_topics' own pair-building statements on these spellings. ('that>' read as 'that stays that' hands a join `that` where it waits for `main`.)")
+def r20(rr, repo):
+    from ..peval import PEval, Lit, Lst, Undecided, Raised
+    FIL = 'openfilter/filter_runtime/filter.py'
+    mod, pt = repo.find(f'{FIL}::Filter.parse_topics')
+    branch = [n for n in walk_scope(pt) if isinstance(n, ast.If) and U(n.test) == 'mapping']
+    if len(branch) != 1:
+        raise Unresolved(f'{FIL}: parse_topics has no single `if mapping:` branch')
+    stmts = [st for st in branch[0].body if not (isinstance(st, ast.If) and any(isinstance(x, ast.Raise) for x in ast.walk(st)))]       # the pair building, without the uniqueness check that follows it
+    var = 'topics'
+    cases = [('a', ('a', 'a')), ('a>b', ('a', 'b')), ('>b', ('main', 'b')), ('that>', ('that', 'main')), ('', ('main', 'main')), ('>', ('main', 'main')), (' a > b ', ('a', 'b')), ('main>x', ('main', 'x'))]
+    for text, want in cases:
+        try:
+            env = PEval({var: Lst([Lit(text)]), 'default_topic': Lit('main')}).run(stmts)
+            v = env.get(var)
+            got = tuple(x.v for x in v.items[0].items) if isinstance(v, Lst) and len(v.items) == 1 and isinstance(v.items[0], Lst) and all(isinstance(x, Lit) for x in v.items[0].items) else None
+        except (Undecided, Raised) as exc:
+            rr.unresolved(f'the pairs parse_topics builds for {text!r} could not be evaluated', mod, branch[0], witness=str(exc)[:100], key=f'topic-pairs|{text}')
+            continue
+        rr.ob(f'the subscription item {text!r} means {want}', got == want, mod, stmts[0] if stmts else branch[0], witness=f'-> {got if got is not None else v!r}', key=f'topic-pairs|{text}')
